@@ -21,6 +21,7 @@ package main
 import (
 	"errors"
 	"fmt"
+	"io"
 	"os"
 	"sort"
 	"strconv"
@@ -551,6 +552,12 @@ func soak(f []string) string {
 		})
 	}
 	newRT()
+	if os.Getenv("C15_PROFILE") == "1" {
+		if err := goja.StartProfile(io.Discard); err != nil {
+			return "ERR " + err.Error()
+		}
+		defer goja.StopProfile()
+	}
 	for i := 0; i < rounds; i++ {
 		if rng.Intn(4) == 0 || roundBad || forceNew {
 			newRT() // otherwise re-use the runtime that was interrupted in the previous round (C03 link)
@@ -718,6 +725,17 @@ func tickCase(f []string) string {
 func main() {
 	common.Loop(func(line string) string {
 		line = strings.TrimSpace(line)
+		if line == "profile on" {
+			// from here on vm.run() delegates to vm.runWithProfiler(): the second run loop (vm.go) is EXECUTED, not only shape-tied
+			if err := goja.StartProfile(io.Discard); err != nil {
+				return "ERR " + err.Error()
+			}
+			return "profile on"
+		}
+		if line == "profile off" {
+			goja.StopProfile()
+			return "profile off"
+		}
 		if strings.HasPrefix(line, "tickcase ") {
 			return tickCase(strings.Fields(line)[1:])
 		}
